@@ -21,9 +21,9 @@
 (***************************************************************************)
 EXTENDS Integers, Sequences, FiniteSets, TLC, SequencesExt, Json, WireBase
 
-CONSTANTS Tier,       \* "quick" | "thorough" | "full6" | "full7" | "utf"
+CONSTANTS Tier,       \* "quick" | "thorough" (both exported) | "deep" | "full6" | "full7" | "utf" (model only)
           Export,     \* BOOLEAN: print the exported subset as vectors
-          Fams        \* subset of {"hf", "hb", "rt", "short", "cor"}: the families of this run
+          Fams        \* subset of {"hf", "hb", "rt", "short6", "short7", "cor6", "cor7"}: the families of this run
 
 W6 == INSTANCE Wire
 W7 == INSTANCE Wire7
@@ -55,42 +55,47 @@ CAP == 2048
 \* header families (as initial-state predicates: TLC enumerates them without building the sets)
 
 Mk(x) == cas = x /\ fam = x.k
-AckSet == IF Quick THEN AckB ELSE 0..1023
+Deep == Tier = "deep"
+\* T3(q, t, d): the value set of the quick / thorough (exported) / deep (model only) tier
+T3(q, t, d) == IF Quick THEN q ELSE IF Deep THEN d ELSE t
+CONSTANTS SliceLo, SliceHi          \* deep and full runs are sliced over a leading coordinate (parallel TLC processes)
+Slice(S) == {x \in S : x >= SliceLo /\ x <= SliceHi}
+Tok2 == {TKEN, TOKEN_NONE}
 
 InitHF ==
-  \/ \E f \in 0..15, a \in AckSet, n \in (IF Quick THEN NcB ELSE NcB \cup BB) :
+  \/ \E f \in 0..15, a \in T3(AckB, 0..1023, Slice(0..1023)), n \in T3(NcB, {0, 255}, Byte) :
        Mk([k |-> "hf", v |-> 6, hk |-> "ph", h |-> [flags |-> f, ack |-> a, nc |-> n]])
-  \/ \E f \in 0..3, s \in (IF Quick THEN Size6B \cup 0..70 ELSE 0..1023) :
+  \/ \E f \in 0..3, s \in T3(Size6B \cup 0..70, 0..1023, Slice(0..1023)) :
        Mk([k |-> "hf", v |-> 6, hk |-> "ch", h |-> [flags |-> f, size |-> s]])
-  \/ \E f \in (IF Quick THEN {1, 3} ELSE 0..3), s \in (IF Quick THEN Size6B ELSE 0..1023), q \in (IF Quick THEN SeqB ELSE 0..1023) :
+  \/ \E f \in T3({1, 3}, 0..3, 0..3), s \in T3(Size6B, Size6B, Slice(0..1023)), q \in T3(SeqB, 0..1023, 0..1023) :
        Mk([k |-> "hf", v |-> 6, hk |-> "chv", h |-> [flags |-> f, size |-> s, seq |-> q]])
-  \/ \E f \in 0..15, a \in AckSet, n \in NcB, t \in (IF Quick THEN {TKEN, TOKEN_NONE} ELSE Tok) :
+  \/ \E f \in 0..15, a \in T3(AckB, AckB, Slice(0..1023)), n \in T3(NcB, NcB, Byte), t \in T3(Tok2, Tok, {TKEN}) :
        Mk([k |-> "hf", v |-> 7, hk |-> "ph", h |-> [flags |-> f, ack |-> a, nc |-> n, token |-> t]])
-  \/ \E f \in 0..15, ver \in 0..3, t \in (IF Quick THEN {TKEN, TOKEN_NONE} ELSE Tok), r \in (IF Quick THEN {TKEN, TOKEN_NONE} ELSE Tok) :
-       Mk([k |-> "hf", v |-> 7, hk |-> "phc", h |-> [flags |-> f, version |-> ver, token |-> t, rtoken |-> r]])
-  \/ \E f \in 0..3, s \in (IF Quick THEN Size7B \cup 0..130 ELSE 0..4095) :
+  \/ \E f \in 0..15, ver \in 0..3, t \in T3(Tok2, Tok, Tok), r \in T3(Tok2, Tok, Tok) :
+       (Deep => SliceLo = 0)
+       /\ Mk([k |-> "hf", v |-> 7, hk |-> "phc", h |-> [flags |-> f, version |-> ver, token |-> t, rtoken |-> r]])
+  \/ \E f \in 0..3, s \in T3(Size7B \cup 0..130, 0..4095, {x \in 0..4095 : (x % 1024) >= SliceLo /\ (x % 1024) <= SliceHi}) :
        Mk([k |-> "hf", v |-> 7, hk |-> "ch", h |-> [flags |-> f, size |-> s]])
-  \/ \E f \in (IF Quick THEN {1, 3} ELSE 0..3), s \in (IF Quick THEN Size7B ELSE 0..4095), q \in (IF Quick THEN SeqB ELSE SeqB \cup 0..300) :
+  \/ \E f \in T3({1, 3}, 0..3, 0..3), s \in T3(Size7B, Size7B, 0..4095), q \in T3(SeqB, SeqB \cup 0..300, Slice(0..1023)) :
        Mk([k |-> "hf", v |-> 7, hk |-> "chv", h |-> [flags |-> f, size |-> s, seq |-> q]])
 
 InitHB ==
-  \/ \E b1 \in Byte, b2 \in (IF Quick THEN B4 ELSE BB), b3 \in (IF Quick THEN {0, 1, 255} ELSE BB) :
+  \/ \E b1 \in Byte, b2 \in T3(B4, BB, BB), b3 \in T3({0, 1, 255}, BB, BB) :
        Mk([k |-> "hb", v |-> 6, hk |-> "ph", b |-> <<b1, b2, b3>>])
-  \/ \E b1 \in Byte, b2 \in (IF Quick THEN BB ELSE Byte) :
+  \/ \E b1 \in Byte, b2 \in T3(BB, Byte, Byte) :
        Mk([k |-> "hb", v |-> 6, hk |-> "ch", b |-> <<b1, b2>>])
-  \/ \E b1 \in (IF Quick THEN {0, 64, 255} ELSE Byte), b2 \in Byte, b3 \in (IF Quick THEN B4 ELSE BB) :
+  \/ \E b1 \in T3({0, 64, 255}, BB, BB), b2 \in Byte, b3 \in T3(B4, BB, BB) :
        Mk([k |-> "hb", v |-> 6, hk |-> "chv", b |-> <<b1, b2, b3>>])
-  \/ \E b1 \in Byte, b2 \in (IF Quick THEN {0, 255} ELSE B4), b3 \in (IF Quick THEN {0, 255} ELSE B4), t \in {TKEN, TOKEN_NONE} :
+  \/ \E b1 \in Byte, b2 \in T3({0, 255}, B4, B4), b3 \in T3({0, 255}, B4, B4), t \in Tok2 :
        Mk([k |-> "hb", v |-> 7, hk |-> "ph", b |-> <<b1, b2, b3>> \o t])
-  \/ \E b1 \in Byte, t \in {TKEN, TOKEN_NONE}, r \in (IF Quick THEN {TKEN} ELSE Tok) :
+  \/ \E b1 \in Byte, t \in Tok2, r \in T3({TKEN}, Tok, Tok) :
        Mk([k |-> "hb", v |-> 7, hk |-> "phc", b |-> <<b1>> \o t \o r])
-  \/ \E b1 \in Byte, b2 \in (IF Quick THEN BB ELSE Byte) :
+  \/ \E b1 \in Byte, b2 \in T3(BB, Byte, Byte) :
        Mk([k |-> "hb", v |-> 7, hk |-> "ch", b |-> <<b1, b2>>])
-  \/ \E b1 \in (IF Quick THEN {0, 64, 255} ELSE Byte), b2 \in Byte, b3 \in (IF Quick THEN {0, 255} ELSE B4) :
+  \/ \E b1 \in T3({0, 64, 255}, BB, BB), b2 \in Byte, b3 \in T3({0, 255}, B4, B4) :
        Mk([k |-> "hb", v |-> 7, hk |-> "chv", b |-> <<b1, b2, b3>>])
 
-\* exhaustive byte spaces (thorough tier, separate runs, sliced over the first byte: no export)
-CONSTANTS SliceLo, SliceHi
+\* exhaustive byte spaces (separate runs, sliced over the first byte: no export)
 InitFull6 ==
   \E b1 \in SliceLo..SliceHi, b2 \in Byte, b3 \in Byte :
     \/ Mk([k |-> "hb", v |-> 6, hk |-> "ph", b |-> <<b1, b2, b3>>])
@@ -279,30 +284,33 @@ A6first == {0, 16, 32, 64, 80, 128, 144, 20, 19, 255}      \* none, control, con
                                                            \* compression, control+compression, padding, ack bits, all
 A7first == {0, 4, 32, 8, 12, 16, 20, 36, 64, 3, 255}       \* none, control, connless, resend, control+resend,
                                                            \* compression, control+compression, connless+control, padding, ack, all
-ANc == IF Quick THEN {0, 1} ELSE {0, 1, 255}
+ANc == T3({0, 1}, {0, 1, 255}, {0, 1, 255})
 ABody == {0, 1, 2, 3, 4, 5, 6, 64, 65, 84, 75, 69, 78, 255}
 ABodyQ == {0, 1, 2, 4, 5, 64, 84, 255}
 Hints == {"none", "true", "false"}
 
-BodyA == IF Quick THEN ABodyQ ELSE ABody
-BodyN == IF Quick THEN 2 ELSE 4
+BodyA == ABodyQ
+BodyN == T3(2, 3, 4)
 Pre6 == {<<>>, <<0>>, <<16, 0>>} \cup {<<a, 0, n>> : a \in A6first, n \in ANc}
 Pre7 == {<<>>, <<0>>, <<4, 0, 0, 1, 2, 3>>, <<32, 0, 0, 0, 0, 0, 0, 0>>}
         \cup {<<a, 0, n>> \o t : a \in A7first, n \in ANc, t \in {<<1, 2, 3, 4>>, TOKEN_NONE}}
-InitShort ==
-  \E m \in 0..BodyN : \E s \in [1..m -> BodyA] :
-    \/ \E h \in Hints, pre \in Pre6 : Mk([k |-> "rd", v |-> 6, hint |-> h, bytes |-> pre \o s])
-    \/ \E pre \in Pre7 : Mk([k |-> "rd", v |-> 7, hint |-> "none", bytes |-> pre \o s])
+\* behind every prefix: every string over BodyA up to length BodyN, plus (beyond quick) every single
+\* letter of the wider alphabet ABody followed by up to two letters of BodyA
+Bodies == UNION {[1..m -> BodyA] : m \in 0..BodyN}
+          \cup (IF Quick THEN {} ELSE {<<x>> \o t : x \in ABody \ BodyA, t \in UNION {[1..m -> BodyA] : m \in 0..2}})
+InitShort6 == \E s \in Bodies, h \in Hints, pre \in Pre6 : Mk([k |-> "rd", v |-> 6, hint |-> h, bytes |-> pre \o s])
+InitShort7 == \E s \in Bodies, pre \in Pre7 : Mk([k |-> "rd", v |-> 7, hint |-> "none", bytes |-> pre \o s])
 
 \* corruptions of valid packets: one or two positions replaced, truncation, extension
-\* (enumerated through quantifiers; V(0) is evaluated once per run)
-ValidSel(y) == /\ Len(y.cl) <= (IF Quick THEN 1 ELSE 2)
+\* (enumerated through quantifiers; Valid6(0) is evaluated once per run)
+ValidSel(y) == /\ Len(y.cl) <= 1
                /\ (y.p.t = "ctrl" => y.p.ack = 0)
+               /\ (y.p.t = "chunks" => y.p.ack \in {0, 256})
                /\ (Quick /\ y.p.t = "chunks" => y.p.ack = 0 /\ ~y.p.rr)
                /\ (Quick /\ y.hascl /\ y.cl # <<>> => y.cl[1].seq \in {0, 1023})
 Valid6(u) == {W6!WriteWith(x.p, Z6(x.p), CAP).bytes : x \in {y \in Pkt6 : ValidSel(y)}}
 Valid7(u) == {W7!WriteWith(x.p, Z7(x.p), CAP).bytes : x \in {y \in Pkt7 : ValidSel(y)}}
-ACor == IF Quick THEN {0, 64, 255} ELSE {0, 1, 4, 16, 32, 64, 128, 255}
+ACor == T3({0, 64, 255}, {0, 1, 4, 16, 64, 255}, {0, 1, 4, 16, 32, 64, 128, 255})
 ACor2 == {0, 64, 255}
 Upd1(b, i, x) == [b EXCEPT ![i] = x]
 Min2(a, b) == IF a < b THEN a ELSE b
@@ -311,10 +319,12 @@ CorOf(b, lim, lim2) ==      \* the corrupted variants of one datagram
   \cup {Take(b, n) : n \in 0..Len(b)}
   \cup {b \o <<x>> : x \in ACor2} \cup {b \o <<x, y>> : x \in ACor2, y \in ACor2}
   \cup (IF Quick THEN {}
-        ELSE {Upd1(Upd1(b, i, x), j, y) : i \in 1..Min2(Len(b), lim2), j \in 1..Min2(Len(b), lim2), x \in ACor2, y \in ACor2})
-InitCor ==
-  \/ \E b \in Valid6(0) : \E b2 \in CorOf(b, IF Quick THEN 9 ELSE 14, 12), h \in Hints : Mk([k |-> "rd", v |-> 6, hint |-> h, bytes |-> b2])
-  \/ \E b \in Valid7(0) : \E b2 \in CorOf(b, IF Quick THEN 13 ELSE 18, 14) : Mk([k |-> "rd", v |-> 7, hint |-> "none", bytes |-> b2])
+        ELSE UNION {{Upd1(Upd1(b, i, x), j, y) : j \in (i + 1)..Min2(Len(b), lim2), x \in ACor2, y \in ACor2} :
+                    i \in 1..Min2(Len(b), lim2)})
+InitCor6 == \E b \in Valid6(0) : \E b2 \in CorOf(b, T3(9, 12, 16), T3(0, 5, 10)), h \in Hints :
+              Mk([k |-> "rd", v |-> 6, hint |-> h, bytes |-> b2])
+InitCor7 == \E b \in Valid7(0) : \E b2 \in CorOf(b, T3(13, 16, 20), T3(0, 9, 14)) :
+              Mk([k |-> "rd", v |-> 7, hint |-> "none", bytes |-> b2])
 
 ---------------------------------------------------------------------------
 \* the UTF-8 predicate: the code's comment counts 2650112 valid three-byte strings
@@ -331,14 +341,16 @@ Init ==
     [] OTHER -> \/ "hf" \in Fams /\ InitHF
                 \/ "hb" \in Fams /\ InitHB
                 \/ "rt" \in Fams /\ \E x \in Pkt6 \cup Pkt7 : Mk(x)
-                \/ "short" \in Fams /\ InitShort
-                \/ "cor" \in Fams /\ InitCor
+                \/ "short6" \in Fams /\ InitShort6
+                \/ "short7" \in Fams /\ InitShort7
+                \/ "cor6" \in Fams /\ InitCor6
+                \/ "cor7" \in Fams /\ InitCor7
 Next == UNCHANGED vars
 
 \* exported subset: everything except the widest byte sweeps, which are thinned
 Exported(x) ==
-  CASE x.k = "hb" /\ x.hk \in {"ch", "chv"} -> x.b[2] \in BB
-    [] x.k = "hf" /\ x.v = 7 /\ x.hk = "ch" -> x.h.size \in Size7B \cup 0..130
+  CASE x.k = "hb" /\ x.hk = "chv" -> x.b[2] \in BB \/ ~Quick
+    [] x.k = "hb" /\ x.hk = "ch" -> x.b[2] \in BB \/ ~Quick
     [] OTHER -> TRUE
 
 Law ==
